@@ -1,0 +1,27 @@
+//go:build verif
+
+package fasthttp
+
+// Thin pass-through wrappers for the C05 (header injection) verification harness under /verif.
+// Compiled only with -tags verif; they add no behaviour.
+
+// VerifRemoveNewLines runs removeNewLines on a copy of b.
+func VerifRemoveNewLines(b []byte) []byte {
+	return removeNewLines(append([]byte(nil), b...))
+}
+
+// VerifInitHeaderValueBytes runs initHeaderValueBytes with an empty buffer.
+func VerifInitHeaderValueBytes(b []byte) []byte {
+	return initHeaderValueBytes(nil, b)
+}
+
+// VerifSetNoDefaultDate sets the unexported noDefaultDate flag (what Server.NoDefaultDate does per response).
+func VerifSetNoDefaultDate(h *ResponseHeader, v bool) { h.noDefaultDate = v }
+
+// VerifIsBadTrailer exposes isBadTrailer.
+func VerifIsBadTrailer(key []byte) bool { return isBadTrailer(key) }
+
+// VerifFormatStatusLine exposes formatStatusLine.
+func VerifFormatStatusLine(protocol []byte, statusCode int, statusText []byte) []byte {
+	return formatStatusLine(nil, protocol, statusCode, statusText)
+}
